@@ -144,13 +144,21 @@ def check_case(case, ctx, h=None):
     compiled = A.compile_tokens(toks)
     exp_err = None
     cs = -1
+    snap = None
     try:
         for entry in R.decode(compiled):
+            # a failing operation takes nothing with it (as a failing step does): the state is the one after the operations before it
+            snap = (list(stt.stack), list(stt.alt), list(stt.vf), stt.nops, dict(stt.execdata), cs)
             cs = R.step(stt, compiled, entry, cs)
     except R.ScriptFail as f:
         exp_err = R.ERR.get(f.code, f.code)
     except R.NumErr as f:
         exp_err = 'exc:' + str(f)
+    if exp_err is not None and snap is not None:
+        stt.stack[:], stt.alt[:], stt.vf[:] = snap[0], snap[1], snap[2]
+        stt.nops, cs = snap[3], snap[5]
+        stt.execdata.clear()
+        stt.execdata.update(snap[4])
     codesep_executed = cs != -1
     changed = (post['alt'] != pre['alt']) or (post['vf'] != pre['vf']) or exp_err is not None
     nontriv = k > 0 and changed
@@ -184,6 +192,14 @@ def check_case(case, ctx, h=None):
                 raise Violation(case, 'exec %r failed with a number-format error but printed no error message' % texts, observed=msg)
         elif ('Error: ' + exp_err) not in msg:
             raise Violation(case, 'exec %r prints %r, the script error is %r' % (texts, msg.strip()[-120:], exp_err), observed=msg.strip()[-200:], expected='Error: ' + exp_err)
+        # the state after the failure: the operations before the failing one are done, the failing one left nothing behind
+        want = list(stt.snap())
+        got = [post['st'], post['alt'], post['vf']]
+        if want != got:
+            raise Violation(case, 'state after the failing exec %r: the failing operation left partial effects behind (or earlier operations were undone)' % texts,
+                            observed=[got[0][-4:], got[1][-4:], got[2]], expected=[want[0][-4:], want[1][-4:], want[2]])
+        if post['ops'] != stt.nops and sv != R.TAPSCRIPT:
+            raise Violation(case, 'operation count after the failing exec differs (%d vs %d): the failed operation was charged' % (post['ops'], stt.nops), observed=post['ops'], expected=stt.nops)
         return
     if not ex['acc']:
         raise Violation(case, 'exec %r failed (%s) but the same operations succeed as script operations on this state' % (texts, ex['err'] or ex['exc']), observed=ex['err'] or ex['exc'], expected='success')
